@@ -84,6 +84,10 @@ def handle (ts : List String) : String :=
       if ulabyIndexError n mmax then "ERR foreign:IndexError"
       else out ((rng n).flatMap fun p => (rng n).flatMap fun q => (rng (mmax + 1)).map fun m =>
         ulaby (fl ks) m p q (fl mus) (fl mui))
+  | "a2local" :: ft0 :: sl :: qr :: qi :: gs =>
+      let g := floats gs
+      let w := sceA2Local pi (fun i => g.getD i 0.0) (fl ft0) (fl sl) (cx qr qi)
+      out [w.re, w.im]
   | "romb" :: k :: dx :: ys =>
       let y := floats ys
       out [romb (nat k) (fun i => y.getD i 0.0) (fl dx)]
